@@ -175,7 +175,7 @@ let run (line : string) : unit =
       with_game cmd (fun g ->
           let (c, g1) = get_moves_st g true in
           match List.find_opt (fun m -> uci_s m = rest) c with
-          | Some m -> sess.game <- Some (push_history g1 m); print_string "hist ok\n"
+          | Some m -> sess.game <- Some (push_history g1 m); Printf.printf "hist ok %s\n" rest
           | None -> sess.game <- Some g1; print_string "hist bad\n")
   | "push" ->
       with_game cmd (fun g ->
